@@ -62,6 +62,8 @@ class Injector:
         self.p_yield = conf.get("p_yield", 0.2)
         self.p_sleep = conf.get("p_sleep", 0.02)
         self.max_sleep = conf.get("max_sleep", 0.003)
+        # "hot" functions: {qualified name: seconds} - a longer delay (with probability 1/2) at each of their lines
+        self.hot = conf.get("hot", {})
         self.lock = threading.Lock()
         self.rnd = random.Random(self.seed)
         self.hits = {}
@@ -74,6 +76,9 @@ class Injector:
             self.hits[key] = self.hits.get(key, 0) + 1
             r = self.rnd.random()
             nap = self.rnd.uniform(0.0003, self.max_sleep)
+            hot = self.hot.get(code.co_qualname) if self.hot else None
+            if hot and self.rnd.random() < 0.5:
+                nap, r = self.rnd.uniform(hot / 4, hot), -1.0
         if r < self.p_sleep:
             time.sleep(nap)
         elif r < self.p_sleep + self.p_yield:
